@@ -28,7 +28,7 @@ for pid in ids:
             extra = ("\nOther engineers have already produced the following faulty changes for this property. Yours must use a DIFFERENT mechanism and, where possible, "
                      "a different function or file (the property has several clauses and several places where it can break):\n" +
                      "\n".join("  - " + s for s in prev) + "\n")
-    if kind in ("benign4", "benign5", "benign6"):
+    if kind in ("benign4", "benign5", "benign6", "benign7"):
         FOCUS = {
             "C01": "the client's ResponseHandler (validate_dele, validate_srep, validate_midpoint, validate_merkle, validate_sig, extract_time)",
             "C02": "Responder::send_responses / make_response / add_*_request, OnlineKey::make_srep, MerkleTree::hash_leaf / hash_nodes / hash",
